@@ -1,6 +1,7 @@
 package main
 
 import (
+	"regexp"
 	"fmt"
 	"strings"
 
@@ -95,20 +96,68 @@ func (lm *lemmas) lexerAdvanceSafe() (bool, string) {
 	return ok, lm.lexWhy
 }
 
+// recvFieldExpr renders v with the receiver written as "$": "$.source", "($.current-1)" — independent of how the source
+// names the receiver.
+func recvFieldExpr(fn *ssa.Function, v ssa.Value) string {
+	d := describe(v)
+	if len(fn.Params) == 0 || fn.Signature.Recv() == nil {
+		return d
+	}
+	r := fn.Params[0].Name()
+	return regexp.MustCompile(`(^|[^\w.])`+regexp.QuoteMeta(r)+`\.`).ReplaceAllString(d, "${1}$$.")
+}
+
+// callArgumentsParam: is s the argument-list parameter of Function.Call, or the parameter of a helper method of
+// *Function that every caller — Function.Call itself — hands its own argument list and receiver on to?
+func (lm *lemmas) callArgumentsParam(fn *ssa.Function, s ssa.Value) bool {
+	prm, ok := s.(*ssa.Parameter)
+	if !ok || fn.Signature.Recv() == nil || typeStr(fn.Signature.Recv().Type()) != "*interpreter.Function" {
+		return false
+	}
+	if fn.Name() == "Call" {
+		return true
+	}
+	idx := -1
+	for i, q := range fn.Params {
+		if q == prm {
+			idx = i
+		}
+	}
+	css := lm.p.CallSites(fn)
+	if idx < 0 || len(css) == 0 {
+		return false
+	}
+	for _, cs := range css {
+		caller := cs.Parent()
+		c := cs.Common()
+		if c.StaticCallee() != fn || lm.p.FuncKey(caller) != "interpreter.(*Function).Call" || idx >= len(c.Args) {
+			return false
+		}
+		if a, ok := c.Args[idx].(*ssa.Parameter); !ok || a.Parent() != caller {
+			return false
+		}
+		if r, ok := c.Args[0].(*ssa.Parameter); !ok || r != caller.Params[0] {
+			return false
+		}
+	}
+	return true
+}
+
 func (lm *lemmas) index(in ssa.Instruction, s, idx ssa.Value) (ok bool, why string, handled bool) {
-	fk := lm.p.FuncKey(in.Parent())
-	ds, di := describe(s), describe(idx)
+	fn := in.Parent()
+	fk := lm.p.FuncKey(fn)
+	ds, di := recvFieldExpr(fn, s), recvFieldExpr(fn, idx)
 	switch {
-	case fk == "lexer.(*Scanner).advance" && ds == "s.source" && di == "s.current":
+	case fk == "lexer.(*Scanner).advance" && ds == "$.source" && di == "$.current":
 		ok, why = lm.lexerAdvanceSafe()
 		return ok, why, true
-	case fk == "parser.(*Parser).peek" && ds == "p.tokens" && di == "p.current":
+	case fk == "parser.(*Parser).peek" && ds == "$.tokens" && di == "$.current":
 		ok, why = lm.parserCursorSafe()
 		return ok, why, true
-	case fk == "parser.(*Parser).previous" && ds == "p.tokens" && di == "(p.current-1)":
+	case fk == "parser.(*Parser).previous" && ds == "$.tokens" && di == "($.current-1)":
 		ok, why = lm.parserCursorSafe()
 		return ok, why, true
-	case fk == "interpreter.(*Function).Call" && ds == "arguments":
+	case lm.callArgumentsParam(fn, s):
 		ok, why = lm.argumentsIndexSafe(in, idx)
 		return ok, why, true
 	}
